@@ -188,6 +188,12 @@ func checkC12(c *core.Ctx) {
 	var nontrivial int64
 	id := 0
 	hand := handFormatDocs()
+	// every C0 control character and DEL, written as an UPPER-case escape: whatever spelling the formatter
+	// chooses for it (lower-case hex digits, short escapes) has to be read back by the library's lexer
+	for cp := 0; cp <= 0x1F; cp++ {
+		hand = append(hand, fmt.Sprintf(`{ f(a: "a\u%04Xb", b: ["\u%04X"]) }`, cp, cp))
+	}
+	hand = append(hand, `{ f(a: "\u007F\u00AD\uABCD\uFEFF\uFFFD") }`)
 	for i := 0; i < ndocs+len(hand); i++ {
 		var src string
 		opts := queryFmtOpts
@@ -209,7 +215,8 @@ func checkC12(c *core.Ctx) {
 				// a hand-written document is grammatical: if it no longer parses, this check can not do its work
 				// (a case that silently disappears is how a defect hides)
 				c.Internal("hand-written document does not parse: %v: %q", perr, clip(src, 300))
-				return
+				// (keep going: a violation found on the remaining cases takes precedence over this)
+				continue
 			}
 			continue
 		}
